@@ -2,6 +2,7 @@ import PyPhysim.Proofs.C01Detect
 import PyPhysim.Proofs.C01Psk
 import PyPhysim.Proofs.C01QamReal
 import PyPhysim.Proofs.C01Relabel
+import PyPhysim.Proofs.C01Robust
 import PyPhysim.Generated.C01Formulas
 
 /-!
@@ -194,6 +195,168 @@ theorem demod_after_history {α : Type} [Field α] [LinearOrder α] [IsStrictOrd
       rw [List.getLast?_cons_of_ne_nil]
       · exact this.2
       · intro hnil; rw [hnil] at this; simp at this
+
+/-! ## R15 — distinct values that are merely close
+
+The model is a function of the EXACT values: nothing in it compares with a tolerance, rounds a
+key or tests "unchanged".  The statements below say so for each place where the code compares,
+looks up or replaces a value; the harness generates the close-but-distinct values
+(`oracle:R15:*`, `corr:R15:*`). -/
+
+section r15
+variable {α : Type} [Field α] [LinearOrder α]
+
+/-- R15, detection: whenever ONE constellation point is strictly nearest to the sample — by
+    however little — its index is returned. -/
+theorem demod_of_strict_nearest (c : List (α × α)) (r : α × α) (i : Nat) (p : α × α)
+    (hi : c[i]? = some p)
+    (hmin : ∀ j q, c[j]? = some q → j ≠ i → dist2 r p < dist2 r q) : demod c r = i :=
+  demod_of_strict_nearest' c r i p hi hmin
+
+/-- R15, detection: two samples on the two sides of a decision boundary get their own index
+    each, no matter how close they are to each other (there is no hypothesis on `r` vs `r'`). -/
+theorem close_samples_decided_separately (c : List (α × α)) (r r' : α × α) (i i' : Nat)
+    (p p' : α × α) (hi : c[i]? = some p) (hi' : c[i']? = some p')
+    (hmin : ∀ j q, c[j]? = some q → j ≠ i → dist2 r p < dist2 r q)
+    (hmin' : ∀ j q, c[j]? = some q → j ≠ i' → dist2 r' p' < dist2 r' q) :
+    demod c r = i ∧ demod c r' = i' :=
+  ⟨demod_of_strict_nearest' c r i p hi hmin, demod_of_strict_nearest' c r' i' p' hi' hmin'⟩
+
+/-- R15, setter: after ANY history, installing a table `t` — equal to, close to or far from the
+    one in force — takes effect: the object holds `t` and the next demodulation is detection
+    against `t`. -/
+theorem setter_takes_effect_for_every_new_value [IsStrictOrderedRing α] (t₀ t : List (α × α)) (h : List (ModOp α))
+    (r : α × α) :
+    (modRun t₀ (h ++ [ModOp.setTable t, ModOp.demodulate r])).1 = t ∧
+    (modRun t₀ (h ++ [ModOp.setTable t, ModOp.demodulate r])).2.getLast?
+      = some (ModOut.index (demod t r)) := by
+  have e : h ++ [ModOp.setTable t, ModOp.demodulate r]
+      = (h ++ [ModOp.setTable t]) ++ [ModOp.demodulate r] := by simp
+  rw [e]
+  have := demod_after_history t₀ (h ++ [ModOp.setTable t]) r
+  rwa [currentTable_append_setTable] at this
+end r15
+
+/-- R15, lookup: with pairwise distinct points, two indexes are mapped to the same symbol only
+    if they are the same index (`modulate` is an exact table lookup). -/
+theorem lookup_exact {α : Type} (c : List (α × α)) (hnd : c.Nodup) (i j : Nat)
+    (hi : i < c.length) (hj : j < c.length) (h : modulate c i = modulate c j) : i = j := by
+  rw [modulate_in_range c i hi, modulate_in_range c j hj] at h
+  exact (List.Nodup.getElem_inj_iff hnd).mp (Except.ok.inj h)
+
+/-- R15, PSK table as a function of the exact phase offset: two offsets put point `k` at the
+    same place exactly when they differ by a whole number of turns … -/
+theorem psk_point_exact_in_offset (M k : Nat) (φ φ' : ℝ) :
+    pskNaturalPoint M k φ = pskNaturalPoint (α := ℝ) M k φ' ↔ ∃ n : ℤ, φ - φ' = 2 * Real.pi * n :=
+  psk_point_offset_iff M k φ φ'
+
+/-- … so two distinct offsets less than a turn apart — 1e-9 apart, adjacent doubles — give
+    tables that differ in EVERY entry. -/
+theorem psk_close_offsets_differ (M k : Nat) (φ φ' : ℝ) (hne : φ ≠ φ')
+    (hclose : |φ - φ'| < 2 * Real.pi) :
+    pskNaturalPoint M k φ ≠ pskNaturalPoint (α := ℝ) M k φ' := by
+  intro h
+  obtain ⟨n, hn⟩ := (psk_point_offset_iff M k φ φ').mp h
+  have hpi := Real.pi_pos
+  have hn0 : n = 0 := by
+    by_contra hc
+    have h1 : (1 : ℝ) ≤ |(n : ℝ)| := by
+      rcases lt_or_gt_of_ne hc with hneg | hpos
+      · have : (n : ℝ) ≤ -1 := by exact_mod_cast Int.le_sub_one_of_lt hneg
+        rw [abs_of_neg (by linarith)]; linarith
+      · have : (1 : ℝ) ≤ n := by exact_mod_cast hpos
+        rw [abs_of_pos (by linarith)]; exact this
+    rw [hn, abs_mul, abs_of_pos (by positivity : (0 : ℝ) < 2 * Real.pi)] at hclose
+    nlinarith
+  rw [hn0] at hn
+  apply hne
+  simp at hn
+  linarith
+
+/-- R15, BPSK: the sign detector has no dead zone around zero. -/
+theorem bpsk_no_dead_zone {α : Type} [Field α] [LinearOrder α] [IsStrictOrderedRing α] (re : α) :
+    (re < 0 → bpskDemod re = 1) ∧ (0 < re → bpskDemod re = 0) := by
+  unfold bpskDemod
+  constructor
+  · intro h; simp [h]
+  · intro h; simp [not_lt.mpr (le_of_lt h)]
+
+/-! ## R16 — argument identity and buffer reuse (`Model/C01Alias.lean`) -/
+
+section r16
+variable {α : Type} [Add α] [Sub α] [Mul α] [LT α] [DecidableLT α]
+
+/-- R16: for an object whose table it made itself (every BPSK / QPSK / PSK / QAM object), after
+    ANY history of refills of the caller's arrays and of calls, the result of `demodulate(array b)`
+    / `modulate(array b)` is computed from the table and the contents of the array at call time,
+    and from nothing else (no identity, no memo, no retained buffer). -/
+theorem call_depends_on_contents_only (s : AState α) (t : List (α × α)) (h₁ h₂ : List (AOp α))
+    (b : Nat) (hs : s.table = .own t) (hk : ∀ op ∈ h₁, op.keepsTable = true) :
+    (aOutputs s (h₁ ++ AOp.demodulate b :: h₂))[h₁.length]?
+      = some (AOut.indexes (((aState s h₁).cbuf b).map (demod t))) ∧
+    (aOutputs s (h₁ ++ AOp.modulate b :: h₂))[h₁.length]?
+      = some (AOut.symbols (((aState s h₁).ibuf b).mapM (modulate t))) := by
+  have ht := resolve_own _ t (own_table_kept s t h₁ hs hk)
+  constructor
+  · rw [aOutputs_at]; simp [aStep, ht]
+  · rw [aOutputs_at]; simp [aStep, ht]
+
+/-- R16: the call made right after refilling array `b` with `v` gives what a freshly built
+    object with the same table gives on a new array holding `v`. -/
+theorem refilled_buffer_equals_fresh_object (s : AState α) (t : List (α × α))
+    (h₁ h₂ : List (AOp α)) (b : Nat) (v : List (α × α)) (hs : s.table = .own t)
+    (hk : ∀ op ∈ h₁, op.keepsTable = true) :
+    (aOutputs s (h₁ ++ AOp.fillC b v :: AOp.demodulate b :: h₂))[h₁.length + 1]?
+      = (aOutputs (freshObj t) [AOp.fillC 0 v, AOp.demodulate 0])[1]? := by
+  have hk' : ∀ op ∈ h₁ ++ [AOp.fillC b v], op.keepsTable = true := by
+    intro op hop
+    rcases List.mem_append.mp hop with h | h
+    · exact hk op h
+    · simp at h; subst h; rfl
+  have e : h₁ ++ AOp.fillC b v :: AOp.demodulate b :: h₂
+      = (h₁ ++ [AOp.fillC b v]) ++ AOp.demodulate b :: h₂ := by simp
+  have hl : h₁.length + 1 = (h₁ ++ [AOp.fillC b v]).length := by simp
+  rw [e, hl, (call_depends_on_contents_only s t _ h₂ b hs hk').1, aState_append]
+  simp [aState, aStep, aOutputs, upd, freshObj, AState.resolve]
+
+/-- R16: results already returned are values; whatever the caller or the object does later
+    (refills, further calls, new tables) leaves them as they were. -/
+theorem earlier_results_unchanged_by_later_calls (s : AState α) (h h' : List (AOp α)) :
+    (aOutputs s (h ++ h')).take h.length = aOutputs s h := by
+  rw [aOutputs_append, List.take_left' (aOutputs_length s h)]
+end r16
+
+/-- R16, NEGATIVE witness on the model of the code that exists: `Modulator.setConstellation`
+    keeps the caller's array (`self.symbols = symbols`), so refilling that array afterwards
+    changes the decisions of the object although no method of the object was called in between
+    (finding `C01:setConstellation-keeps-argument`; replayed on the real class by the oracle
+    `alias`).  BPSK / QPSK / PSK / QAM never take this path (`call_depends_on_contents_only`). -/
+theorem setConstellation_keeps_callers_array :
+    aOutputs (freshObj ([] : List (Int × Int)))
+      [AOp.fillC 0 [(1, 0), (-1, 0)], AOp.setConstellation 0, AOp.fillC 1 [(2, 0)],
+       AOp.demodulate 1, AOp.fillC 0 [(-1, 0), (1, 0)], AOp.demodulate 1]
+      = [AOut.none, AOut.none, AOut.none, AOut.indexes [0], AOut.none, AOut.indexes [1]] := by
+  rfl
+
+/-- R16, the proposed repair `self.symbols = np.array(symbols)`: the table is the contents of the
+    caller's array at the time of the call; whatever the caller does to its arrays afterwards, and
+    whatever is called, every later call is computed from that table. -/
+theorem repaired_setConstellation_immune {α : Type} [Add α] [Sub α] [Mul α] [LT α] [DecidableLT α]
+    (s : AState α) (b b' : Nat) (h₁ h₂ : List (AOp α)) (hk : ∀ op ∈ h₁, op.keepsTable = true) :
+    (aOutputs s (AOp.setConstellationCopy b :: (h₁ ++ AOp.demodulate b' :: h₂)))[h₁.length + 1]?
+      = some (AOut.indexes (((aState (aStep s (AOp.setConstellationCopy b)).1 h₁).cbuf b').map
+          (demod (s.cbuf b)))) := by
+  simp only [aOutputs, List.getElem?_cons_succ]
+  exact (call_depends_on_contents_only (aStep s (AOp.setConstellationCopy b)).1 (s.cbuf b) h₁ h₂ b'
+    rfl hk).1
+
+/-- non-vacuity of the R15 / R16 statements: a strictly nearest point that wins by 2/10^12, and an
+    own-table history with a refilled array -/
+example : demod ([(1, 0), (-1, 0)] : List (ℚ × ℚ)) (1/10^12, 3) = 0 ∧
+    demod ([(1, 0), (-1, 0)] : List (ℚ × ℚ)) (-1/10^12, 3) = 1 := by decide +kernel
+example : (aOutputs (freshObj ([(1, 0), (-1, 0)] : List (Int × Int)))
+      [AOp.fillC 0 [(2, 0)], AOp.demodulate 0, AOp.fillC 0 [(-2, 0)], AOp.demodulate 0])
+    = [AOut.none, AOut.indexes [0], AOut.none, AOut.indexes [1]] := by rfl
 
 /-- Tie to the source: the grid coordinates, the storage index, the average-energy
     expression and the PSK phase expression re-translated from `fundamental.py` on every run
